@@ -135,12 +135,10 @@ Fixpoint top_loop (fuel : nat) (s : list N) (acc : list ty) : outcome (list ty) 
       end
   end.
 
-(* fn Type::parse_description *)
+(* fn Type::parse_description (after /repo commit f8eb89e: no EmptySignature test any more; on the
+   empty string the while-let loop ends at once and the function returns Ok(vec![]). The code before
+   that commit is kept, refuted, in History/ParserOld.v) *)
 Definition parse_description (s : list N) : outcome (list ty) :=
   if 255 <? len s then Err else
-  match s with
-  | [] => Err
-  | _ =>
-      do ts <- top_loop (S (length s)) s [];
-      if forallb (check_depth 0 0) ts then Ok ts else Err
-  end.
+  do ts <- top_loop (S (length s)) s [];
+  if forallb (check_depth 0 0) ts then Ok ts else Err.
